@@ -191,10 +191,25 @@ pub trait DateRoll {
             return self.add_bus_days(date, days, settlement).unwrap();
         }
         match days.cmp(&0_i8) {
-            Ordering::Equal => self.roll_forward_bus_day(date),
-            Ordering::Less => self
-                .add_bus_days(&self.roll_backward_bus_day(date), days + 1, settlement)
-                .unwrap(),
+            Ordering::Equal => {
+                if settlement {
+                    self.roll_forward_settled_bus_day(date)
+                } else {
+                    self.roll_forward_bus_day(date)
+                }
+            }
+            Ordering::Less => {
+                // count without settlement first: once `days + 1` reaches zero the direction would be lost
+                // and the settlement adjustment would move forwards, past the input date.
+                let counted = self
+                    .add_bus_days(&self.roll_backward_bus_day(date), days + 1, false)
+                    .unwrap();
+                if settlement {
+                    self.roll_backward_settled_bus_day(&counted)
+                } else {
+                    counted
+                }
+            }
             Ordering::Greater => self
                 .add_bus_days(&self.roll_forward_bus_day(date), days - 1, settlement)
                 .unwrap(),
